@@ -39,7 +39,7 @@ MODEL_FILES = ['SF/Hier.v', 'SF/HierVal.v']
 IMPORTS = 'Require Import SF.Prelude SF.PySlice SF.Dtype SF.Value SF.Hier SF.HierVal.'
 RULE = ('trees of depth 2..4 with ragged fan-out 1..6, labels drawn per depth from small pools (so inner labels repeat under different '
         'parents) in random order, per-depth kinds str/int/date; every construction route; selectors per depth from '
-        '{all, label, list, label slice} plus, at the innermost depth, label slices with a step (-2..2, ends biased to the first/last label of the leaf) and Boolean masks (also as whole key); iter_label(d) / iter_label([..]) observed first on every index (before the table is built) and right after every growth step; GO histories of append/extend/read: EXHAUSTIVE over {materialise, append-leaf, append-branch, extend}^(<=2 quick, <=3 thorough) from two start indices with the full probe battery (derive a new index through 7 public routes and observe all its views; HLoc of every selector kind; Series/Frame .loc[HLoc]) run immediately after every growth step, with one of the ~23 self-refreshing reads (values_at_depth(d), values, dtypes, nbytes, iloc, reversed, to_frame, deepcopy, relabel, isin, ==, display, roll, shape/size/depth/len...) rotated into FIRST position; EXHAUSTIVE stratum api:go:first: start x growth kind x every such read as the very first read after growth with the table materialised before; plus random longer histories with random probes. '
+        '{all, label, list, label slice} plus, at the innermost depth, label slices with a step (-2..2, ends biased to the first/last label of the leaf) and Boolean masks (also as whole key); iter_label(d) / iter_label([..]) observed first on every index (before the table is built) and right after every growth step; GO histories of append/extend/read: EXHAUSTIVE over {materialise, append-leaf, append-branch, extend}^(<=2 quick, <=3 thorough) from two start indices with the full probe battery (derive a new index through 7 public routes and observe all its views; HLoc of every selector kind; Series/Frame .loc[HLoc]) run immediately after every growth step, with one of the ~23 self-refreshing reads (values_at_depth(d), values, dtypes, nbytes, iloc, reversed, to_frame, deepcopy, relabel, isin, ==, display, roll, shape/size/depth/len...) rotated into FIRST position; EXHAUSTIVE stratum api:go:first: start x growth kind x every such read as the very first read after growth with the table materialised before; plus random longer histories with random probes; stratum api:go:date: IndexHierarchyGO and FrameGO columns with a datetime index class (IndexDate at depth 1 of 2, depth 1 of 3, depth 2 of 3; IndexYearMonth) grown by appends/extends that introduce NEW outer labels with dates spelled as np.datetime64 / datetime.date / str, then HLoc / in / loc_to_iloc / Series.loc with the date spelled every way (incl. coarser-unit strings, lists, slices) against the tuple spec and against the same labels built in one go. '
         'Exhaustive stratum (thorough tier, api:hloc:small): all 90 depth-2 trees with root labels a | a,b and leaf sequences of <= 2 distinct labels of {1,2,3} x every selector pair of the menu {:, label, ordered list of <= 2 labels, label slice with optional ends} (40500 keys) + one random innermost mask per tree; quick tier samples 700 of them; second exhaustive stratum api:hloc:small-step: 2 three-leaf trees (leaves of 2-4 labels, sorted and unsorted) and the 90 small trees x outer selector x stepped innermost slice (ends None|label, step -2,-1,1,2), 17k keys (quick: 500). '
         'non-trivial = the selection is non-empty and the tree has more than one leaf node; distinct = distinct (rows, route/key).')
 ASSUMPTIONS = [
@@ -782,6 +782,7 @@ def hloc_case(ctx, ih, tree, rows, key, route, stratum='api:hloc:loc_to_iloc', w
     n = len(rows)
     tl, rl, kl = tree_lit(tree), rows_lit(rows), key_lit(key)
     txt, out = obs if obs is not None else hloc_observe(ih, key, n, wrap)
+    py_fail = (extra or {}).pop('_py_fail', None) if extra else None
     kinds = '+'.join(s[0] for s in key)
     ctx.count(f'hloc:{kinds}' if len(kinds) < 40 else 'hloc:long', 'hloc:err' if isinstance(out, Exception) else 'hloc:ok')
     tags = {'route': route, 'op': 'hloc'}
@@ -802,7 +803,7 @@ def hloc_case(ctx, ih, tree, rows, key, route, stratum='api:hloc:loc_to_iloc', w
                  'call': 'ih.loc_to_iloc(HLoc[key])' + (f' with list/mask selectors passed as {wrap}' if wrap else ''),
                  'key': [sel_json(s) for s in key], 'observed': txt, **(extra or {})},
                 m=None if (outer_mask or tl is None) else f'check_hloc_M {tl} {kl} {txt}',
-                s=None if outer_mask else f'check_hloc_S {rl} {kl} {txt}',
+                s=None if outer_mask else f'check_hloc_S {rl} {kl} {txt}', py_fail=py_fail,
                 tags=tags, nontrivial=nontrivial, key=f'hloc|{wrap}|{rl}|{kl}|{json_key(extra)}')
 
 
@@ -1622,8 +1623,211 @@ def first_read_cases(ctx):
                             yield c
 
 
+# ----------------------------------------------------------------------------- GO growth under a datetime-typed inner level
+def spell(v, how):
+    '''The same date label spelled as np.datetime64 / datetime.date / ISO string.'''
+    if not isinstance(v, np.datetime64):
+        return v
+    if how == 'date':
+        return v.astype('datetime64[D]').astype(object)
+    if how == 'str':
+        return str(v)
+    return v
+
+
+def node_classes(level, depth=0, out=None):
+    '''depth -> set of Index class names (GO suffix stripped) of every node of the real tree.'''
+    out = {} if out is None else out
+    nm = type(level.index).__name__
+    out.setdefault(depth, set()).add(nm[:-2] if nm.endswith('GO') else nm)
+    if level.targets is not None:
+        for t in level.targets:
+            node_classes(t, depth + 1, out)
+    return out
+
+
+def call_class(fn):
+    try:
+        return ('ok', fn())
+    except Exception as e:  # noqa
+        return ('err', lit.err_class(e))
+
+
+def date_history_cases(ctx):
+    '''IndexHierarchyGO (and hierarchical FrameGO columns) whose inner depth is a datetime index class: appends /
+    extends that introduce NEW outer labels, keys spelled as np.datetime64 / datetime.date / str; then per-level
+    selection, membership and full-tuple lookup with the date spelled in every way (incl. coarser-unit strings, lists,
+    slices) -- against the tuple-sequence specification AND against the same labels built in one go.'''
+    import static_frame as sf
+    rng = ctx.rng
+    D = lambda x: np.datetime64(x, 'D')
+    M_ = lambda x: np.datetime64(x, 'M')
+    configs = [
+        ('d2', [sf.Index, sf.IndexDate], 1, 'D', [('a', D('2020-01-01')), ('a', D('2020-01-03')), ('b', D('2020-01-02'))],
+         [('b', D('2020-01-05')), ('c', D('2020-01-03')), ('c', D('2020-02-01')), ('d', D('2020-01-05'))],
+         [('e', D('2020-01-05')), ('e', D('2020-02-02')), ('f', D('2020-01-03'))]),
+        ('d3-mid', [sf.Index, sf.IndexDate, sf.Index], 1, 'D', [('a', D('2020-01-01'), 'x'), ('a', D('2020-01-03'), 'x'), ('b', D('2020-01-02'), 'y')],
+         [('b', D('2020-01-05'), 'x'), ('c', D('2020-01-03'), 'x'), ('c', D('2020-02-01'), 'y'), ('d', D('2020-01-05'), 'x')],
+         [('e', D('2020-01-05'), 'x'), ('f', D('2020-01-03'), 'y')]),
+        ('d3-inner', [sf.Index, sf.Index, sf.IndexDate], 2, 'D', [('a', 1, D('2020-01-01')), ('a', 1, D('2020-01-03')), ('b', 2, D('2020-01-02'))],
+         [('b', 2, D('2020-01-05')), ('c', 1, D('2020-01-03')), ('c', 2, D('2020-02-01')), ('d', 1, D('2020-01-05'))],
+         [('e', 1, D('2020-01-05')), ('f', 2, D('2020-01-03'))]),
+        ('ym', [sf.Index, sf.IndexYearMonth], 1, 'M', [('a', M_('2020-01')), ('a', M_('2020-03')), ('b', M_('2020-02'))],
+         [('b', M_('2020-05')), ('c', M_('2020-03')), ('c', M_('2021-01')), ('d', M_('2020-05'))],
+         [('e', M_('2020-05')), ('f', M_('2021-01'))]),
+    ]
+    for cname, ctors, dd, unit, rows0, appends, ext in configs:
+        depth = len(ctors)
+        for how in (('np', 'date', 'str') if unit == 'D' else ('np', 'str')):
+            for via in ('ihgo', 'framego.columns'):
+                if via == 'framego.columns' and (ctx.tier == 'quick' and how == 'np'):
+                    continue
+                want = list(rows0)
+                g = sf.IndexHierarchyGO.from_labels(rows0, index_constructors=ctors)
+                frame = sf.FrameGO.from_records([list(range(len(rows0)))], columns=g) if via == 'framego.columns' else None
+                steps = []
+                script = [('append', k) for k in appends] + ([('extend', ext)] if via == 'ihgo' else [('append', k) for k in ext])
+                for op, arg in script:
+                    if frame is not None:
+                        g = frame.columns
+                    grown = None
+                    try:
+                        if op == 'append':
+                            key = tuple(spell(x, how) for x in arg)
+                            if frame is not None:
+                                frame[key] = [len(want)]
+                            else:
+                                g.append(key)
+                            want = want + [arg]
+                        else:
+                            other = sf.IndexHierarchy.from_labels([tuple(spell(x, how) for x in r) for r in arg], index_constructors=ctors)
+                            g.extend(other)
+                            want = want + list(arg)
+                    except Exception as e:  # noqa
+                        grown = e
+                    steps.append([op, [jl(x) for x in arg] if op == 'append' else [[jl(x) for x in r] for r in arg], f'dates spelled as {how}'])
+                    base = {'config': cname, 'via': via, 'index_constructors': [c.__name__ for c in ctors], 'history': list(steps),
+                            'start_rows': [[jl(x) for x in r] for r in rows0]}
+                    ctx.count(f'go:date:{cname}:{how}:{via}')
+                    if grown is not None:
+                        yield Case('api:go:date:growth', base, py_fail=f'{op} with dates spelled as {how} raised {type(grown).__name__}: {grown}'[:300],
+                                   tags={'op': 'date-growth', 'spelling': how, 'via': via}, key=f'dg|{cname}|{how}|{via}|{json_key(steps)}')
+                        break
+                    if frame is not None:
+                        g = frame.columns
+                    yield from date_probes(ctx, g, want, ctors, dd, unit, base, rng)
+
+
+def date_probes(ctx, g, want, ctors, dd, unit, base, rng):
+    import static_frame as sf
+    depth = len(ctors)
+    n = len(want)
+    one = sf.IndexHierarchy.from_labels(want, index_constructors=ctors)          # the same labels built in one go
+    last = want[-1]
+    dnew = last[dd]
+    group = [r[dd] for r in want if r[:dd] == last[:dd]]
+    dold = want[0][dd]
+    tags = {'op': 'date-probe', 'config': base['config'], 'via': base['via']}
+    hkey = json_key(base['history'])
+    # -- structure: every node of the date depth keeps the datetime index class; dtypes / index_types as built in one go
+    problems = []
+    nc, oc = node_classes(g._levels), node_classes(one._levels)
+    if nc != oc:
+        problems.append(f'index classes per depth {dict((k, sorted(v)) for k, v in nc.items())}, built in one go {dict((k, sorted(v)) for k, v in oc.items())}')
+    if [str(x) for x in g.dtypes.values] != [str(x) for x in one.dtypes.values]:
+        problems.append(f'dtypes {[str(x) for x in g.dtypes.values]}, built in one go {[str(x) for x in one.dtypes.values]}')
+    got = [tuple(canon(x) for x in r) for r in g]
+    if [row_lit(r) for r in got] != [row_lit(r) for r in want]:
+        problems.append('list(index) differs from the tuples')
+    yield Case('api:go:date:structure', dict(base, observe='index class of every tree node per depth, dtypes, list(index) vs the same labels built in one go'),
+               py_fail='; '.join(problems)[:400] or None, tags=tags, key=f'dstruct|{hkey}')
+    tree = tree_of(g._levels)
+    tl, rl = tree_lit(tree), rows_lit(want)
+    all_ = [('all',)] * depth
+
+    def key_with(sel_at_dd, outer=None):
+        k = list(all_)
+        k[dd] = sel_at_dd
+        if outer is not None:
+            k[0] = ('one', outer)
+        return k
+
+    spellings = ('np', 'date', 'str') if unit == 'D' else ('np', 'str')
+    probes = []
+    for sp in spellings:
+        probes.append((key_with(('one', dnew)), sp, f'label {jl(dnew)} as {sp}'))
+        probes.append((key_with(('one', dnew), outer=last[0]), sp, f'outer {jl(last[0])}, label as {sp}'))
+        probes.append((key_with(('list', [dnew, dold])), sp, f'list as {sp}'))
+        probes.append((key_with(('slice', group[0], group[-1]), outer=last[0]) if dd == 1 else key_with(('one', dnew), outer=last[0]), sp, f'slice as {sp}'))
+    for key, sp, what in probes:
+        def pykey(k=key, sp=sp):
+            parts = []
+            for s_ in k:
+                if s_[0] == 'one':
+                    parts.append(spell(s_[1], sp))
+                elif s_[0] == 'list':
+                    parts.append([spell(x, sp) for x in s_[1]])
+                elif s_[0] == 'slice':
+                    parts.append(slice(spell(s_[1], sp), spell(s_[2], sp)))
+                else:
+                    parts.append(slice(None))
+            return sf.HLoc(tuple(parts))
+        obs = res_lit(lambda: canon_iloc(g.loc_to_iloc(pykey()), n), lambda v: hres_lit(*v))
+        ref = res_lit(lambda: canon_iloc(one.loc_to_iloc(pykey()), n), lambda v: hres_lit(*v))
+        pf = None if obs[0] == ref[0] else f'grown index answers {obs[0]}, the same labels built in one go answer {ref[0]}'
+        ctx.count(f'go:date:probe:{sp}')
+        yield hloc_case(ctx, g, tree, want, key, 'go-date', stratum='api:go:date:hloc', obs=obs,
+                        extra=dict(base, spelled=what, _py_fail=pf))
+    # -- coarser-unit string at the date depth: all labels of that period (python reference + one-go)
+    coarse = str(dnew)[:7] if unit == 'D' else str(dnew)[:4]
+    for outer in (None, last[0]):
+        parts = [slice(None)] * depth
+        parts[dd] = coarse
+        if outer is not None:
+            parts[0] = outer
+        k = sf.HLoc(tuple(parts))
+        a = call_class(lambda: sorted(canon_iloc(g.loc_to_iloc(k), n)[1]))
+        b = call_class(lambda: sorted(canon_iloc(one.loc_to_iloc(k), n)[1]))
+        expect = [i for i, r in enumerate(want) if str(r[dd]).startswith(coarse) and (outer is None or jl(r[0]) == jl(outer))]
+        pr = []
+        if a != b:
+            pr.append(f'grown index answers {a}, built in one go answers {b}')
+        if a != ('ok', expect):
+            pr.append(f'positions {a}, the tuples whose date lies in {coarse} are at {expect}')
+        yield Case('api:go:date:coarse', dict(base, call=f'loc_to_iloc(HLoc[...]) with the coarser-unit string {coarse!r} at depth {dd}' + (f' under {jl(outer)}' if outer else ''), observed=str(a)),
+                   py_fail='; '.join(pr)[:400] or None, tags=tags, key=f'dcoarse|{outer}|{hkey}')
+    # -- membership and full-tuple lookup, every spelling, for the last tuple and an early one
+    for sp in spellings:
+        ks = [last, want[0]]
+        spelled = [tuple(spell(x, sp) for x in r) for r in ks]
+        got_in = [bool(k in g) for k in spelled]
+        ref_in = [bool(k in one) for k in spelled]
+        kl = lit.lst([row_lit(k) for k in ks])
+        outs = [res_lit(lambda k=k: g.loc_to_iloc(k), lambda v: lit.z(int(v)))[0] for k in spelled]
+        refs = [res_lit(lambda k=k: one.loc_to_iloc(k), lambda v: lit.z(int(v)))[0] for k in spelled]
+        pf = []
+        if got_in != ref_in:
+            pf.append(f'membership {got_in}, built in one go {ref_in}')
+        if outs != refs:
+            pf.append(f'loc_to_iloc(tuple) {outs}, built in one go {refs}')
+        yield Case('api:go:date:tuple', dict(base, observe=f'tuple in index, index.loc_to_iloc(tuple), dates spelled as {sp}', keys=[[jl(x) for x in k] for k in ks], observed=[got_in, outs]),
+                   m=f'check_contains_M {tl} {kl} {bl(got_in)} && check_lookup_M {tl} {kl} {lit.lst(outs)}',
+                   s=f'check_contains_S {rl} {kl} {bl(got_in)} && check_lookup_S {rl} {kl} {lit.lst(outs)}',
+                   py_fail='; '.join(pf)[:400] or None, tags=dict(tags, spelling=sp), key=f'dtuple|{sp}|{hkey}')
+    # -- containers indexed by the grown index: Series.loc / Frame.loc with the date spelled as str
+    if base['via'] == 'ihgo':
+        sp = spellings[-1]
+        ser = sf.Series(range(n), index=g)
+        k = sf.HLoc(tuple([slice(None)] * dd + [spell(dnew, sp)]))
+        a = call_class(lambda: [int(x) for x in np.atleast_1d(ser.loc[k].values if hasattr(ser.loc[k], 'values') else ser.loc[k])])
+        expect = [i for i, r in enumerate(want) if jl(r[dd]) == jl(dnew)]
+        yield Case('api:go:date:series_loc', dict(base, call=f'Series(range(n), index=grown).loc[HLoc[..., {spell(dnew, sp)!r}]]', observed=str(a)),
+                   py_fail=None if a == ('ok', expect) else f'selected {a}, the tuples with that date are at {expect}', tags=tags, key=f'dser|{hkey}')
+
+
 def go_cases(ctx):
     rng = ctx.rng
+    yield from date_history_cases(ctx)
     yield from first_read_cases(ctx)
     yield from short_history_cases(ctx)
     for _ in range(ctx.n(30, 300)):
